@@ -71,6 +71,9 @@ THEOREMS = [
     "Verif.C01.window_wf",
     "Verif.C01.timeString_functional",
     "Verif.C01.cont_slice_no_overflow",
+    "Verif.C01.slice_shift",
+    "Verif.C01.getitem_shift",
+    "Verif.C01.shift_timestamps",
 ]
 RULE = (
     "corpus (F1, F6 inputs) + exhaustive small scope (n<=5 samples, dt in {1,2,3,5}, two starts, every window "
@@ -285,9 +288,27 @@ def impl(case):
             # second observable: Slice.start / Slice.stop of a non-empty result (what a nested relative time string
             # counts from, and what `None` stands for at the next level)
             bounds = "0" if len(s) == 0 else f"{len(s)} {int(s.start)} {int(s.stop)}"
-            if kind == "tags":
-                return ["tags " + enc_list(data), bounds]
-            return [f"{kind} " + show_samples(ts, data), bounds]
+            first = "tags " + enc_list(data) if kind == "tags" else f"{kind} " + show_samples(ts, data)
+            if "shift" not in case:
+                return [first, bounds]
+            # translation invariance on the real code (theorem getitem_shift): the same recording `shift` ns later,
+            # absolute bounds moved along, None and relative time strings unchanged -> same samples, `shift` ns later
+            d = case["shift"]
+            moved = dict(case)
+            if kind == "cont":
+                moved["start"] = case["start"] + d
+            else:
+                moved["ts"] = [t + d for t in case["ts"]]
+            s2 = build(moved)
+            for (a, b), via in zip(case["windows"], case["via"]):
+                a2, b2 = (v + d if isinstance(v, int) else dec_bound(v) for v in (a, b))
+                s2 = s2[make_item(npw(a2), npw(b2), via)]
+            ts2 = np.asarray(s2.timestamps) - d
+            data2 = np.asarray(s2.data)
+            if len(ts2) != len(data2):
+                return [first, bounds, f"length-mismatch {len(ts2)} {len(data2)}"]
+            back = "tags " + enc_list(data2 - d) if kind == "tags" else f"{kind} " + show_samples(ts2, data2)
+            return [first, bounds, back]
         if k == "item":
             s = build(case)
             for it in case["items"]:
@@ -321,7 +342,10 @@ def ops(case):
     k = case["op"]
     if k == "get":
         w = " ".join(f"{enc_bound_model(a)} {enc_bound_model(b)}" for a, b in case["windows"])
-        return [f"c01.get {src_tokens(case)} {w}", f"c01.bounds {src_tokens(case)} {w}"]
+        lines = [f"c01.get {src_tokens(case)} {w}", f"c01.bounds {src_tokens(case)} {w}"]
+        if "shift" in case:
+            lines.append(lines[0])  # the shifted run, moved back, must give the very same answer
+        return lines
     if k == "item":
         return [f"c01.item {src_tokens(case)} " + " ".join(enc_item_model(it) for it in case["items"])]
     if k == "mask":
@@ -332,7 +356,7 @@ def ops(case):
 
 
 def agree(case, i, ia, ma):
-    if case["op"] == "get" and i == 0:
+    if case["op"] == "get" and i in (0, 2):
         # the model prints its full source (start/dt/bounds); the property determines the samples only
         toks = ma.split(" ")
         if toks[0] == "cont":
@@ -378,6 +402,8 @@ def oracle(case, ia):
             exp = f"{case['kind']} " + show_samples([t for t, _ in cur], [v for _, v in cur])
         if ans != exp:
             return f"window-membership: implementation returned {ans[:300]} but the samples with start <= t < stop are {exp[:300]}"
+        if len(ia) > 2 and ia[2] != ia[0]:
+            return f"translation: the same recording {case['shift']} ns later gives {ia[2][:200]} (moved back) instead of {ia[0][:200]}"
         if len(ia) > 1 and ia[1] != "0" and cur and not case.get("unsorted"):
             # a non-empty result must lie inside what the result itself reports as its begin and end (these are what
             # `None` and relative time strings mean at the next level)
@@ -759,6 +785,9 @@ def cases(tier, rng):
         case.update({"stream": "random", "op": "get", "windows": windows, "via": via, "subseed": i})
         if kind == "cont" and sub.chance(0.25):
             case["np"] = True
+        if sub.chance(0.3):
+            lowest = min(ts)
+            case["shift"] = sub.choice([1, 7, 10**9, sub.randint(0, 2**40), -sub.randint(0, lowest)])
         yield case
     # random chains of 1-3 items through the whole Slice.__getitem__ (windows with every kind of bound, masks,
     # rarely a step / scalar / non-number bound / invalid string)
